@@ -38,3 +38,195 @@ pub fn par_map<T: Sync, W, R: Send>(
         .map(|r| r.expect("task not completed (worker panicked)"))
         .collect()
 }
+
+// -----------------------------------------------------------------------------------------
+// process-isolated workers for in-process checks: a case that overflows the stack, exhausts
+// memory or never returns takes down (or blocks) only its worker process; the parent knows
+// which case it was and goes on.
+
+use crate::common::{CaseOut, Cfg, Harness};
+use std::io::{BufRead, BufReader};
+use std::process::{Command, Stdio};
+
+#[derive(Debug)]
+pub enum CaseEnd {
+    Done(CaseOut),
+    /// the worker process died (signal / abort) while running this case
+    Crashed(String),
+    /// the worker did not come back within the limit and was killed
+    Hung,
+}
+
+/// Child side: run cases `start, start+stride, ..` below `n`, one line of JSON per case.
+pub fn worker_loop(start: u64, stride: u64, n: u64, mut f: impl FnMut(u64) -> CaseOut) {
+    use std::io::Write;
+    // bounded address space: runaway allocation fails fast instead of exhausting the machine
+    unsafe {
+        let lim = libc::rlimit { rlim_cur: 6 << 30, rlim_max: 6 << 30 };
+        libc::setrlimit(libc::RLIMIT_AS, &lim);
+        let core = libc::rlimit { rlim_cur: 0, rlim_max: 0 };
+        libc::setrlimit(libc::RLIMIT_CORE, &core);
+    }
+    let out = std::io::stdout();
+    let mut i = start;
+    while i < n {
+        {
+            let mut o = out.lock();
+            let _ = writeln!(o, "S {i}");
+            let _ = o.flush();
+        }
+        let r = f(i);
+        let mut o = out.lock();
+        let _ = writeln!(o, "R {i} {}", serde_json::to_string(&r).unwrap());
+        let _ = o.flush();
+        i += stride;
+    }
+}
+
+/// Parent side: results for cases 0..n in index order.
+pub fn proc_map(cfg: &Cfg, id: &str, n: u64, hang_secs: u64) -> Result<Vec<CaseEnd>, Harness> {
+    let exe = std::env::current_exe()?;
+    let workers = (cfg.workers.max(1) as u64).min(n.max(1));
+    let results: std::sync::Mutex<Vec<Option<CaseEnd>>> = std::sync::Mutex::new((0..n).map(|_| None).collect());
+    let err: std::sync::Mutex<Option<String>> = std::sync::Mutex::new(None);
+    std::thread::scope(|s| {
+        for k in 0..workers {
+            let (results, err, exe) = (&results, &err, &exe);
+            s.spawn(move || {
+                let mut start = k;
+                while start < n {
+                    let mut child = match Command::new(exe)
+                        .args(["worker", id, &start.to_string(), &workers.to_string(), &n.to_string()])
+                        .env("VERIF_SEED", cfg.seed.to_string())
+                        .env("VERIF_TIER", cfg.tier.name())
+                        .stdin(Stdio::null())
+                        .stdout(Stdio::piped())
+                        .stderr(Stdio::null())
+                        .spawn()
+                    {
+                        Ok(c) => c,
+                        Err(e) => {
+                            *err.lock().unwrap() = Some(format!("cannot start worker: {e}"));
+                            return;
+                        }
+                    };
+                    let pid = child.id() as i32;
+                    let stdout = child.stdout.take().unwrap();
+                    // watchdog: kills the child if the current case takes too long
+                    let tick = std::sync::Arc::new(std::sync::atomic::AtomicU64::new(0));
+                    let done = std::sync::Arc::new(std::sync::atomic::AtomicBool::new(false));
+                    let killed = std::sync::Arc::new(std::sync::atomic::AtomicBool::new(false));
+                    let (t2, d2, k2) = (tick.clone(), done.clone(), killed.clone());
+                    let wd = std::thread::spawn(move || {
+                        let mut last = 0;
+                        let mut since = std::time::Instant::now();
+                        while !d2.load(std::sync::atomic::Ordering::SeqCst) {
+                            std::thread::sleep(std::time::Duration::from_millis(200));
+                            let now = t2.load(std::sync::atomic::Ordering::SeqCst);
+                            if now != last {
+                                last = now;
+                                since = std::time::Instant::now();
+                            } else if since.elapsed().as_secs() >= hang_secs {
+                                k2.store(true, std::sync::atomic::Ordering::SeqCst);
+                                unsafe { libc::kill(pid, libc::SIGKILL) };
+                                return;
+                            }
+                        }
+                    });
+                    let mut current: Option<u64> = None;
+                    let mut next_start = n;
+                    for line in BufReader::new(stdout).lines() {
+                        let Ok(line) = line else { break };
+                        tick.fetch_add(1, std::sync::atomic::Ordering::SeqCst);
+                        if let Some(i) = line.strip_prefix("S ") {
+                            current = i.trim().parse().ok();
+                        } else if let Some(rest) = line.strip_prefix("R ") {
+                            if let Some((i, js)) = rest.split_once(' ') {
+                                if let (Ok(i), Ok(out)) = (i.parse::<u64>(), serde_json::from_str::<CaseOut>(js)) {
+                                    results.lock().unwrap()[i as usize] = Some(CaseEnd::Done(out));
+                                    if current == Some(i) {
+                                        current = None;
+                                    }
+                                }
+                            }
+                        }
+                    }
+                    let status = child.wait();
+                    done.store(true, std::sync::atomic::Ordering::SeqCst);
+                    let _ = wd.join();
+                    if let Some(i) = current {
+                        // the worker ended in the middle of case i
+                        let end = if killed.load(std::sync::atomic::Ordering::SeqCst) {
+                            CaseEnd::Hung
+                        } else {
+                            CaseEnd::Crashed(match status {
+                                Ok(st) => {
+                                    use std::os::unix::process::ExitStatusExt;
+                                    match st.signal() {
+                                        Some(sig) => format!("signal {sig}"),
+                                        None => format!("exit status {:?}", st.code()),
+                                    }
+                                }
+                                Err(e) => e.to_string(),
+                            })
+                        };
+                        results.lock().unwrap()[i as usize] = Some(end);
+                        next_start = i + workers;
+                    } else if !matches!(&status, Ok(st) if st.success()) {
+                        *err.lock().unwrap() = Some(format!("worker ended abnormally outside a case: {status:?}"));
+                        return;
+                    }
+                    start = next_start;
+                }
+            });
+        }
+    });
+    if let Some(e) = err.into_inner().unwrap() {
+        return Err(Harness(e));
+    }
+    let v = results.into_inner().unwrap();
+    let mut out = Vec::with_capacity(v.len());
+    for (i, r) in v.into_iter().enumerate() {
+        out.push(r.ok_or_else(|| Harness(format!("no result for case {i}")))?);
+    }
+    Ok(out)
+}
+
+/// Run `vf <args>` in a child process and classify how it ended (used by replay).
+pub fn isolated(args: &[&str], hang_secs: u64) -> Result<(Option<i32>, String, Option<String>), Harness> {
+    let exe = std::env::current_exe()?;
+    let mut child = Command::new(exe)
+        .args(args)
+        .stdin(Stdio::null())
+        .stdout(Stdio::piped())
+        .stderr(Stdio::null())
+        .spawn()?;
+    let pid = child.id() as i32;
+    let done = std::sync::Arc::new(std::sync::atomic::AtomicBool::new(false));
+    let killed = std::sync::Arc::new(std::sync::atomic::AtomicBool::new(false));
+    let (d2, k2) = (done.clone(), killed.clone());
+    let wd = std::thread::spawn(move || {
+        let t = std::time::Instant::now();
+        while !d2.load(std::sync::atomic::Ordering::SeqCst) {
+            std::thread::sleep(std::time::Duration::from_millis(200));
+            if t.elapsed().as_secs() >= hang_secs {
+                k2.store(true, std::sync::atomic::Ordering::SeqCst);
+                unsafe { libc::kill(pid, libc::SIGKILL) };
+                return;
+            }
+        }
+    });
+    let mut out = String::new();
+    use std::io::Read;
+    child.stdout.take().unwrap().read_to_string(&mut out)?;
+    let st = child.wait()?;
+    done.store(true, std::sync::atomic::Ordering::SeqCst);
+    let _ = wd.join();
+    use std::os::unix::process::ExitStatusExt;
+    let abnormal = if killed.load(std::sync::atomic::Ordering::SeqCst) {
+        Some(format!("did not come back within {hang_secs} s"))
+    } else {
+        st.signal().map(|s| format!("died with signal {s}"))
+    };
+    Ok((st.code(), out, abnormal))
+}
